@@ -318,6 +318,22 @@ pub fn run(cfg: &J) -> J {
             bad.push(json!({"rule":"compare","why":format!("integer {} against the float as_f64 gives ({:?})", n, f),"k":{"c":"int","w":"i64","n":n.to_string()}}));
         }
     }
+    // non-finite payloads: the From conversions keep them (only Number::from_f64 refuses them); == follows as_f64
+    for (name, p) in [("inf", f64::INFINITY), ("-inf", f64::NEG_INFINITY), ("nan", f64::NAN)] {
+        for single in [false, true] {
+            evals += 1;
+            let (v, n) = if single { (Value::from(p as f32), Number::from(p as f32)) } else { (Value::from(p), Number::from(p)) };
+            let same = |g: Option<f64>| g.map_or(false, |g| g.to_bits() == p.to_bits() || (g.is_nan() && p.is_nan()));
+            let want_eq = !p.is_nan();
+            let ok = v.is_number() && v.is_f64() && !v.is_i64() && !v.is_u64() && !v.is_nil() && same(v.as_f64()) && same(n.as_f64())
+                && (v == p) == want_eq && (p == v) == want_eq && (v == p as f32) == want_eq && (v == Value::from(n.clone())) == want_eq
+                && kind_flags(&v).iter().filter(|f| f.1).count() == 1;
+            if !ok {
+                bad.push(json!({"rule":"accessor","why":format!("Value::from({}{}) does not hold that float: is_number {}, as_f64 {:?}", name, if single { "f32" } else { "f64" }, v.is_number(), v.as_f64()),
+                                "k":{"c": if single { "f32" } else { "f64" },"f":name}}));
+            }
+        }
+    }
     // Number::from_f64 rejects non-finite values
     if Number::from_f64(f64::NAN).is_some() || Number::from_f64(f64::INFINITY).is_some() || Number::from_f64(1.0).is_none() {
         bad.push(json!({"rule":"accessor","why":"Number::from_f64 must accept exactly the finite doubles","k":{"c":"float"}}));
